@@ -33,7 +33,7 @@ def setup(ctx):
     ]
     ctx.require("monitor", "accepted_urls", 5000)
     ctx.require("monitor", "ipv6_urls", 300)
-    ctx.require("monitor", "live_roundtrips", 30)
+    ctx.require("monitor", "live_roundtrips", 22)
 
 
 def comps(p):
